@@ -300,5 +300,10 @@ func stack() string {
 	return strings.Join(keep, " | ")
 }
 
+// RestartProcess models the end of the agent process and the start of a new one: under the engine the package-level
+// state of the code under test is discarded and its package initialisers run again; natively it cannot be done (no-op),
+// so harnesses using it are engine-only (//verif:native off).
+func RestartProcess() {}
+
 // VirtualNow is the engine's discrete-event clock in nanoseconds (0 natively).
 func VirtualNow() int { return 0 }
